@@ -38,7 +38,7 @@ CONFIGS = {
         "expect": ["simple-lib", "minimal_scpi-lib"],
     },
     "witness": {
-        "cmds": [(os.path.join(VERIF, "witness"), ["check", "--workspace", "--lib"])],
+        "cmds": [("@WITNESS@", ["check", "--workspace", "--lib"])],
         "crates": "witness_enums,witness_wiring",
         "expect": ["witness_enums-lib", "witness_wiring-lib"],
         "extra_hash": os.path.join(VERIF, "witness"),
@@ -129,6 +129,8 @@ def ensure(config, log=sys.stderr):
                     if d.split("-")[0] in ("scpi", "scpi_contrib", "scpi_derive", "witness_enums", "witness_wiring", "witness_controls") or d.startswith(("scpi-contrib", "scpi-", "witness")):
                         shutil.rmtree(os.path.join(fp, d), ignore_errors=True)
         for cwd, args in cfg["cmds"]:
+            if cwd == "@WITNESS@":
+                cwd = _materialise_witness()
             wd = cwd if os.path.isabs(cwd) else os.path.join(REPO, cwd)
             cmd = ["cargo", "+nightly"] + args[:1] + ["--offline"] + args[1:]
             r = subprocess.run(cmd, cwd=wd, env=env, stdout=subprocess.PIPE, stderr=subprocess.STDOUT, text=True)
@@ -147,6 +149,27 @@ def ensure(config, log=sys.stderr):
     finally:
         fcntl.flock(lock, fcntl.LOCK_UN)
         lock.close()
+
+
+def _materialise_witness():
+    """Copy /verif/witness to the cache with the path dependencies pointing at the analysed repository."""
+    src = os.path.join(VERIF, "witness")
+    dst = os.path.join(CACHE, "witness-src")
+    if os.path.exists(dst):
+        shutil.rmtree(dst)
+    shutil.copytree(src, dst, ignore=shutil.ignore_patterns("target"))
+    for dp, dn, fn in os.walk(dst):
+        for f in fn:
+            if f.endswith(".in"):
+                with open(os.path.join(dp, f)) as fh:
+                    txt = fh.read().replace("@REPO@", REPO)
+                with open(os.path.join(dp, f[:-3]), "w") as fh:
+                    fh.write(txt)
+                os.remove(os.path.join(dp, f))
+    lock = os.path.join(REPO, "Cargo.lock")
+    if os.path.exists(lock):
+        shutil.copy(lock, os.path.join(dst, "Cargo.lock"))
+    return dst
 
 
 def _gc(keep=16):
